@@ -452,6 +452,7 @@ func finishScalar(t *rapid.T, c *ScalarCase) {
 		}
 	}
 	c.Plus = rapid.Bool().Draw(t, "plusForBlank")
+	c.Bare = rapid.Bool().Draw(t, "bareWhenEmpty")
 	c.Lead = rapid.SampledFrom([]string{"", "", "", "time", "time", "unexported", "plain", "all"}).Draw(t, "leadFields")
 }
 
